@@ -485,6 +485,8 @@ uint32_t LessThan_deepPTRef::getVarIdFromProduct(PTRef tr) const {
 bool LessThan_deepPTRef::operator()(PTRef x_, PTRef y_) const {
     uint32_t id_x = l.isTimes(x_) ? getVarIdFromProduct(x_) : x_.x;
     uint32_t id_y = l.isTimes(y_) ? getVarIdFromProduct(y_) : y_.x;
+    // Two products over the same variable: order them by identity, so that the result does not depend on the input order
+    if (id_x == id_y) { return x_.x < y_.x; }
     return id_x < id_y;
 }
 
